@@ -388,6 +388,12 @@ impl SocksResponse {
         let dport = socket.read_u16().await.context("read port")?;
         let dst = socket.read_u32().await.context("read dst")?;
         let target = (dst, dport).into();
+        // map the v4 result code to the v5 one used internally: 90 is "request granted"
+        let cmd = match cmd {
+            90 => SOCKS_REPLY_OK,
+            0 => SOCKS_REPLY_GENERAL_FAILURE,
+            x => x,
+        };
         Ok(Self {
             version: 4,
             cmd,
